@@ -15,6 +15,9 @@ pub fn text() -> BoxedStrategy<String> {
             "\u{feff}bom", "x\u{feff}", "back\\nslash \\t \\\\ \\", "C:\\new\\dir", "%s\\n", "tab\there", "\\", "\"quoted\"", "'", "$(x)", "`y`",
         ]).prop_map(String::from),
         2 => "[ -~]{0,24}",
+        // tokens the library's own source spells out, alone or joined
+        2 => (dict_word(), prop::option::weighted(0.4, (prop::sample::select(vec!["=", " ", "-", "", ".", "/"]), dict_word())))
+            .prop_map(|(a, b)| match b { Some((sep, b)) => format!("{}{}{}", a, sep, b), None => a }),
         1 => "[ -~]{100,700}",
         1 => prop::collection::vec(any::<char>().prop_filter("no CR/LF", |c| *c != '\r' && *c != '\n'), 0..8)
             .prop_map(|v| v.into_iter().collect::<String>()),
@@ -22,14 +25,26 @@ pub fn text() -> BoxedStrategy<String> {
     .boxed()
 }
 
+fn no_line_break(c: char) -> bool {
+    c != '\r' && c != '\n'
+}
+
+/// a token of the library's source without CR / LF
+pub fn dict_word() -> BoxedStrategy<String> {
+    crate::engine::dict::string_token(no_line_break, "a")
+}
+
 /// shorter, for the streaming checks: multi-byte characters at the start, the end and next to '='
 pub fn stream_text() -> BoxedStrategy<String> {
-    prop::sample::select(vec![
-        "", "a", "é", "x=é", "é=x", "💖", "日本", "a b", "=", "ßa", "aß", "1.0", "€uro", "x€", "\u{7ff}\u{800}\u{ffff}\u{10000}",
-        "\u{feff}", "\u{feff}x", "x\u{feff}y", "\\n",
-        "pkg-1.0", "cat/pkg",
-    ])
-    .prop_map(String::from)
+    prop_oneof![
+        7 => prop::sample::select(vec![
+            "", "a", "é", "x=é", "é=x", "💖", "日本", "a b", "=", "ßa", "aß", "1.0", "€uro", "x€", "\u{7ff}\u{800}\u{ffff}\u{10000}",
+            "\u{feff}", "\u{feff}x", "x\u{feff}y", "\\n",
+            "pkg-1.0", "cat/pkg",
+        ])
+        .prop_map(String::from),
+        1 => dict_word(),
+    ]
     .boxed()
 }
 
@@ -38,6 +53,8 @@ pub fn int() -> BoxedStrategy<i64> {
         4 => prop::sample::select(vec![0i64, 1, -1, i64::MIN, i64::MAX, 4321, 10]),
         2 => any::<i64>(),
         2 => 0i64..100_000,
+        // numbers the library's own source mentions, and their neighbours
+        1 => crate::engine::dict::int_token(0, i64::MAX as u64).prop_map(|n| n as i64),
     ]
     .boxed()
 }
